@@ -446,13 +446,22 @@ def rule_M4_M5_M6(m, rep, want=('M4', 'M5', 'M6')):
                 if not exp[which]:
                     rep.bad('M5', 'count-after-write-%d' % which, body.where(b1 if which == 1 else b2),
                             'bytes buffered by write %d are never added to self.%s' % (which, m.f_written))
-        if 'M6' in want:
+        if 'M6' in want or 'M6e' in want:
             ok_e2, _, _ = outcomes(T, b2)
             rts = ret_terms(T, ok_e2, known={norm(T.call_term(b2)): 'Ok'}) if ok_e2 else set()
-            okk = bool(rts) and all(rt[0] == 'adt' and rt[2] == 'Ok' and dict(rt[3]).get('0') == r1 for rt in rts)
-            rep.ob('M6', 'returns-metric-byte-count', okk, body.where(b2),
-                   'buffered path returns Ok(bytes of the metric)' if okk else
-                   'buffered path returns %s, not Ok(<count of the first write>)' % [fmt(x) for x in rts])
+            oks = [rt for rt in rts if rt[0] == 'adt' and rt[2] == 'Ok']
+            if 'M6' in want:
+                # the value an accepted metric is acknowledged with
+                okk = bool(oks) and all(dict(rt[3]).get('0') == r1 for rt in oks)
+                rep.ob('M6', 'returns-metric-byte-count', okk, body.where(b2),
+                       'buffered path returns Ok(bytes of the metric)' if okk else
+                       'buffered path returns %s, not Ok(<count of the first write>)' % [fmt(x) for x in rts])
+            if 'M6e' in want:
+                # once metric and terminator are buffered the call cannot fail any more
+                oke = bool(rts) and len(oks) == len(rts)
+                rep.ob('M6', 'no-error-after-buffering', oke, body.where(b2),
+                       'after the line was buffered the call returns Ok' if oke else
+                       'the metric is already buffered (and will be sent) but the call can still return %s' % [fmt(x)[:80] for x in rts if x not in oks][:2])
 
 
 def _is_add_of(v, m, r):
